@@ -144,6 +144,11 @@ def o_sign(case):
             S.pycoin_sign(B, tx, "lookup", inp.keys, ht, idx_set=[i], uncompressed=_uncompressed(B))
             S.fill_from_pycoin(txd, tx)
         ok, err = S.ref_verify(B, txd, i, S.DEFAULT, memo=memo)
+        if who == "ref" and variant == "stale":
+            if ok:
+                raise HarnessError("a stale reference signature verifies: %s" % _desc(B, i))
+            labels.append("pre-stale")       # not valid: the signer must replace it like any other unsigned input
+            continue
         if not ok:
             if who == "ref":
                 raise HarnessError("reference pre-signature does not verify under refvm: %s %s" % (_desc(B, i), err))
@@ -256,7 +261,7 @@ def nt_sign(case, labels):
 
 def s_sign():
     pre = st.lists(st.tuples(st.integers(0, 4), weighted((2, st.just("ref")), (1, st.just("pycoin"))), st.sampled_from(S.HASH_TYPES),
-                             st.sampled_from(["plain", "plain", "highs", "p1push", "junk"])).map(list), max_size=2)
+                             st.sampled_from(["plain", "plain", "highs", "p1push", "junk", "stale", "stale"])).map(list), max_size=2)
     withhold = weighted((4, st.just([])), (1, st.lists(st.tuples(st.integers(0, 4), st.integers(0, 19)).map(list), min_size=1, max_size=3)))
     no_script = weighted((7, st.just([])), (1, st.lists(st.integers(0, 4), min_size=1, max_size=1)))
     return st.fixed_dictionaries({
